@@ -27,8 +27,8 @@ StrCats == <<"plain", "empty", "ws-only", "newline", "yaml-bool", "yaml-num", "y
 NumCats == <<"small-int", "neg-zero", "big-exp", "high-prec", "gt-int64", "float-int", "exp-forms">>
 OtherCats == <<"null", "true", "false">>
 LeafCats == StrCats \o NumCats \o OtherCats
-KeyCats == <<"plain", "empty", "yaml-bool", "yaml-num", "ind-first", "ind-inner", "unicode", "ws">>
-Shapes == <<"leaf", "list2", "obj1", "list-of-list", "obj-of-list">>
+KeyCats == <<"plain", "empty", "yaml-bool", "yaml-num", "ind-first", "ind-inner", "unicode", "ws", "prefix">>
+Shapes == <<"leaf", "list2", "obj1", "list-of-list", "obj-of-list", "list-of-obj", "obj-of-obj">>
 
 NLeaf == Len(LeafCats)
 IsStr(c) == c <= Len(StrCats)
@@ -59,9 +59,17 @@ EncOf(op) == CASE op \in {"export-toml", "import-toml"} -> "toml" [] OTHER -> "a
 VARIABLES doc, beh, mustFail
 vars == <<doc, beh, mustFail>>
 
-Docs == IF Sample = 0
+\* directed two-member documents: sibling keys of which one is a string prefix of the other ("job", "job1"),
+\* holding arrays of tables / nested tables (TOML headers [[job]] and [job1.t] must not be confused)
+Idx(seq, x) == CHOOSE i \in DOMAIN seq : seq[i] = x
+DirSlot == [k : {Idx(KeyCats, "prefix")}, sh : {Idx(Shapes, "list-of-obj"), Idx(Shapes, "obj-of-obj"), Idx(Shapes, "obj1")},
+            c1 : {Idx(LeafCats, "plain")}, c2 : {Idx(LeafCats, "small-int")}]
+Directed == IF MaxSlots >= 2 THEN [1..2 -> DirSlot] ELSE {}
+
+Docs == Directed \cup
+        (IF Sample = 0
           THEN UNION {[1..n -> Slot] : n \in 1..MaxSlots}
-          ELSE UNION {RandomSubset(Sample, [1..n -> Slot]) : n \in 1..MaxSlots}
+          ELSE UNION {RandomSubset(Sample, [1..n -> Slot]) : n \in 1..MaxSlots})
 
 Init ==
   /\ doc \in Docs
